@@ -997,27 +997,37 @@ package tcell
 //@   modifies t.cells.cells[*], t.cx, t.cy, t.curstyle, t.colors, t.buf, t.buffering, t.clear, t.cursorStyleSet, t.cursorColorSet
 
 // ---------------------------------------------------------------------------
-// C04: the setters record what the application asked for (so that Resume re-applies exactly that)
+// C04: the setters record what the application asked for (so that Resume re-applies exactly that) and touch the
+// terminal only while the screen is running: what they wrote to a suspended terminal would not be undone by the next
+// Fini/Suspend, which returns early when the screen is not running (engage applies the recorded modes on Resume)
 // ---------------------------------------------------------------------------
 
 //@ func (*tScreen).EnablePaste
 //@   arith math
 //@   ensures [recorded] t.pasteEnabled
+//@   ensures [quiet-when-not-running] !old(t.running) ==> calls(enablePasting) == 0
+//@   ensures [applied] old(t.running) ==> calls(enablePasting) == 1
 //@   modifies t.pasteEnabled, t.buf, t.Mutex
 
 //@ func (*tScreen).DisablePaste
 //@   arith math
 //@   ensures [recorded] !t.pasteEnabled
+//@   ensures [quiet-when-not-running] !old(t.running) ==> calls(enablePasting) == 0
+//@   ensures [applied] old(t.running) ==> calls(enablePasting) == 1
 //@   modifies t.pasteEnabled, t.buf, t.Mutex
 
 //@ func (*tScreen).EnableFocus
 //@   arith math
 //@   ensures [recorded] t.focusEnabled
+//@   ensures [quiet-when-not-running] !old(t.running) ==> calls(enableFocusReporting) == 0
+//@   ensures [applied] old(t.running) ==> calls(enableFocusReporting) == 1
 //@   modifies t.focusEnabled, t.buf, t.Mutex
 
 //@ func (*tScreen).DisableFocus
 //@   arith math
 //@   ensures [recorded] !t.focusEnabled
+//@   ensures [quiet-when-not-running] !old(t.running) ==> calls(disableFocusReporting) == 0
+//@   ensures [applied] old(t.running) ==> calls(disableFocusReporting) == 1
 //@   modifies t.focusEnabled, t.buf, t.Mutex
 
 // EnableMouse folds its variadic flags with OR (all three classes when none is given), records the result for Resume
@@ -1027,7 +1037,8 @@ package tcell
 //@   arith bv
 //@   let want = len(flags) == 0 ? (MouseMotionEvents | MouseDragEvents | MouseButtonEvents) : orFlags(flags, len(flags))
 //@   ensures [recorded] t.mouseFlags == want
-//@   ensures [applied-once] calls(enableMouse) == 1
+//@   ensures [applied-once] old(t.running) ==> calls(enableMouse) == 1
+//@   ensures [quiet-when-not-running] !old(t.running) ==> calls(enableMouse) == 0
 //@   calls [applied] call(enableMouse, recv, fl, ret) ==> fl == want
 //@   loop 1:
 //@     invariant [fold] -1 <= rangeindex && rangeindex < len(flags) && f == orFlags(flags, rangeindex + 1) && flagsPresent == (rangeindex >= 0)
@@ -1037,6 +1048,8 @@ package tcell
 //@ func (*tScreen).DisableMouse
 //@   arith math
 //@   ensures [recorded] t.mouseFlags == 0
+//@   ensures [quiet-when-not-running] !old(t.running) ==> calls(enableMouse) == 0
+//@   ensures [applied] old(t.running) ==> calls(enableMouse) == 1
 //@   modifies t.mouseFlags, t.buf, t.Mutex
 
 // enableMouse: every tracking mode is switched off first, then exactly the modes of the requested classes are switched
@@ -1060,6 +1073,10 @@ package tcell
 //@   modifies t.buf
 
 //@ func (*tScreen).enableFocusReporting
+//@   arith math
+//@   modifies t.buf
+
+//@ func (*tScreen).disableFocusReporting
 //@   arith math
 //@   modifies t.buf
 
